@@ -18,9 +18,8 @@ func loadFunc(file, key string) (*loader, *funcInfo, error) {
 	if !ok {
 		return nil, nil, fmt.Errorf("limbproof: %s not found in package %s", key, pkg.dir)
 	}
-	if got := ld.fset.Position(fi.decl.Pos()).Filename; filepath.Clean(got) != filepath.Clean(file) {
-		return nil, nil, fmt.Errorf("limbproof: %s is declared in %s, not in %s", key, got, file)
-	}
+	// (the routine may live in any file of the package: `file` only names the package and the file the reference tree
+	// keeps it in)
 	return ld, fi, nil
 }
 
@@ -407,7 +406,11 @@ func inputWeight(in *interp, v *Val, a, b []*Val) (int, bool) {
 func CheckMulGFlooredDiv(glvFile string, n *big.Int) ([]Obligation, error) {
 	ld, fi, err := loadFunc(glvFile, "Scalar.mulGFlooredDiv")
 	if err != nil {
-		return nil, err
+		// the routine as a plain function of the two operands
+		var err2 error
+		if ld, fi, err2 = loadFunc(glvFile, "mulGFlooredDiv"); err2 != nil {
+			return nil, err
+		}
 	}
 	o := &obs{scope: filepath.Base(glvFile), fn: "mulGFlooredDiv", fnPos: ld.posOf(fi.decl)}
 	r := runFunc(ld, fi, "FromMontgomery", "uncheckedSetSaturated")
